@@ -23,11 +23,13 @@ package main
 
 import (
 	"bufio"
+	"encoding/hex"
 	"fmt"
 	"os"
 	"path/filepath"
 	"reflect"
 	"sort"
+	"strconv"
 	"strings"
 
 	"vh/internal/astx"
@@ -56,15 +58,18 @@ type parsed struct {
 	err  error
 }
 
-func parseFile(path string) (p parsed, panicked string) {
+func parseFile(path string, src []byte) (p parsed, panicked string) {
 	defer func() {
 		if e := recover(); e != nil {
 			panicked = fmt.Sprint(e)
 		}
 	}()
-	src, err := os.ReadFile(path)
-	if err != nil {
-		return parsed{err: err}, ""
+	if src == nil {
+		var err error
+		src, err = os.ReadFile(path)
+		if err != nil {
+			return parsed{err: err}, ""
+		}
 	}
 	p.src = src
 	p.fset = token.NewFileSet()
@@ -299,6 +304,12 @@ func cliptext(s string) string {
 }
 
 func main() {
+	if len(os.Args) > 2 && os.Args[1] == "gen" { // print a generated source (debugging aid)
+		seed, _ := strconv.ParseUint(os.Args[2], 10, 64)
+		src, _ := genXGo(astx.NewRng(seed))
+		fmt.Print(src)
+		return
+	}
 	in := bufio.NewReaderSize(os.Stdin, 1<<20)
 	out := bufio.NewWriterSize(os.Stdout, 1<<20)
 	defer out.Flush()
@@ -307,7 +318,21 @@ func main() {
 		line = strings.TrimRight(line, "\n")
 		if line != "" {
 			f := strings.Split(line, "\t")
-			p, pp := parseFile(f[1])
+			var p parsed
+			var pp string
+			damaged := false
+			switch f[0] {
+			case "gen":
+				seed, _ := strconv.ParseUint(f[1], 10, 64)
+				var src string
+				src, damaged = genXGo(astx.NewRng(seed))
+				p, pp = parseFile("gen.xgo", []byte(src))
+			case "src":
+				b, _ := hex.DecodeString(f[1])
+				p, pp = parseFile("src.xgo", b)
+			default:
+				p, pp = parseFile(f[1], nil)
+			}
 			switch {
 			case pp != "" || p.file == nil:
 				fmt.Fprintf(out, "-\t-\tok\tnoparse\n")
@@ -331,6 +356,8 @@ func main() {
 				verdict := "ok"
 				if p.err != nil {
 					info += " parse-errors"
+				} else if damaged {
+					info += " damaged" // the malformed stream serves the K-diff only
 				} else {
 					fs, stats := oracle(p)
 					var parts []string
